@@ -181,11 +181,34 @@ func ruleFailureReported(c *Ctx, rule string) {
 			if len(es) == 0 {
 				continue // an rpc command
 			}
-			n++
 			fs := p.Facts(u.instr)
-			okErr := fs.NonNil(p.lpath(es[0].Val))
 			ids := p.allocFieldStores(al, "id")
 			okId := len(ids) == 1 && strings.HasSuffix(p.lpath(ids[0].Val), "c.id")
+			if pr, isParam := es[0].Val.(*ssa.Parameter); isParam {
+				// a reporting helper: the error is non-nil at every call site, and each caller returns afterwards
+				idx := -1
+				for k, x := range f.Params {
+					if x == pr {
+						idx = k
+					}
+				}
+				for _, cs := range p.Callers(f) {
+					n++
+					cfs := p.Facts(cs.instr)
+					okErr := idx >= 0 && idx < len(cs.args) && cfs.NonNil(p.lpath(cs.args[idx]))
+					c.check(rule, p.cname(cs.caller)+":error-command", okErr && okId, "a failing Read/Write/dial reports exactly its error under the peer's own name: "+cfs.String(), p.ipos(cs.instr))
+					bad := noSecondBefore(cs.instr, func(i ssa.Instruction) bool {
+						_, isSend := i.(*ssa.Send)
+						_, isSel := i.(*ssa.Select)
+						_, isCall := i.(*ssa.Call)
+						return isSend || isSel || isCall && len(p.Blocks().callees[i]) > 0
+					}, func(i ssa.Instruction) bool { _, r := i.(*ssa.Return); return r })
+					c.check(rule, p.cname(cs.caller)+":error-command-once", bad == nil, "after reporting, the loop returns without sending anything else", p.ipos(cs.instr))
+				}
+				continue
+			}
+			n++
+			okErr := fs.NonNil(p.lpath(es[0].Val))
 			c.check(rule, p.cname(f)+":error-command", okErr && okId, "a failing Read/Write/dial reports exactly its error under the peer's own name: "+fs.String(), p.ipos(u.instr))
 			// followed by a return (the loop ends)
 			bad := noSecondBefore(u.instr, func(i ssa.Instruction) bool {
